@@ -301,20 +301,15 @@ def rawTokens (cs : List Char) : List Token := lexLoop (cs.length + 1) cs false
 
 /-! ### the post-passes -/
 
-/-- `trim_end`: a trailing blank run is dropped; trailing white space of a final `Unknown` is
-    trimmed, and if nothing is left the token goes away (together with a blank run before it) -/
-def trimEnd (ts : List Token) : List Token :=
-  let ts := match ts.getLast? with
-    | some (.whitespace _) => ts.dropLast
-    | _ => ts
-  match ts.getLast? with
-  | some (.unknown s) =>
-    if (trimEndStr s).isEmpty then
-      match ts.dropLast.getLast? with
-      | some (.whitespace _) => ts.dropLast.dropLast
-      | _ => ts.dropLast
-    else ts.dropLast ++ [.unknown (trimEndStr s)]
-  | _ => ts
+/-- the loop of `trim_end`, on the reversed token list: blanks and runs that are nothing but
+    (Unicode) white space are popped until something else ends the line (fix D18) -/
+def trimEndRev : List Token → List Token
+  | .whitespace _ :: r => trimEndRev r
+  | .unknown s :: r => if (trimEndStr s).isEmpty then trimEndRev r else .unknown (trimEndStr s) :: r
+  | r => r
+
+/-- `trim_end` -/
+def trimEnd (ts : List Token) : List Token := (trimEndRev ts.reverse).reverse
 
 /-- what one window of `collapse_triples` pushes (the four `if let` blocks are mutually exclusive) -/
 def tripleMatch : Token → Token → Token → Option Token
